@@ -159,6 +159,8 @@ def define(ctx, ns, modname, qualname, loop_specs=None, extra=None, label=None):
                 continue
             if b[0] in ("function", "class"):
                 define(ctx, ns, modname, nm)
+            elif b[0] == "other":
+                frontend.exec_module_constant(ns, modname, nm)
             elif b[0] == "mutable":
                 ns[nm] = {"Dict": dict, "DictComp": dict, "dict": dict, "defaultdict": dict, "OrderedDict": dict,
                           "List": list, "ListComp": list, "list": list, "deque": list,
